@@ -43,6 +43,11 @@ pub struct Case {
     /// text flavour: 0 ascii, 1 multibyte, 2 bytes ([u8] input)
     pub flavour: u8,
     pub script_seed: u64,
+    /// (old_len, new_len, deleted, inserted) of a synthetic valid op list over
+    /// very long virtual sequences, for the ratio clause at sizes no real
+    /// input of the batch reaches
+    #[serde(default)]
+    pub ratio_probe: Option<(u64, u64, u64, u64)>,
     pub only_k: Option<u64>,
     pub cap: u64,
     pub sample_seed: u64,
@@ -285,6 +290,62 @@ fn judge_c02(o: &CapOut) -> Result<(), Fail> {
     Ok(())
 }
 
+/// The ratio clause on a synthetic, valid op list `Equal, Delete?, Insert?`
+/// over virtual sequences of the given lengths.
+fn judge_ratio_probe(p: (u64, u64, u64, u64)) -> Result<(), Fail> {
+    let (old_len, new_len, del, ins) = p;
+    let (old_len, new_len, del, ins) = (old_len as usize, new_len as usize, del as usize, ins as usize);
+    let eq = old_len - del;
+    if eq != new_len - ins {
+        return fail("c02.harness_ratio_probe", format!("inconsistent probe {:?}", p));
+    }
+    let mut ops = Vec::new();
+    if eq > 0 {
+        ops.push(DiffOp::Equal {
+            old_index: 0,
+            new_index: 0,
+            len: eq,
+        });
+    }
+    match (del > 0, ins > 0) {
+        (true, true) => ops.push(DiffOp::Replace {
+            old_index: eq,
+            old_len: del,
+            new_index: eq,
+            new_len: ins,
+        }),
+        (true, false) => ops.push(DiffOp::Delete {
+            old_index: eq,
+            old_len: del,
+            new_index: eq,
+        }),
+        (false, true) => ops.push(DiffOp::Insert {
+            old_index: eq,
+            new_index: eq,
+            new_len: ins,
+        }),
+        _ => {}
+    }
+    let r = get_diff_ratio(&ops, old_len, new_len);
+    let same = del == 0 && ins == 0;
+    if !(0.0..=1.0).contains(&r) {
+        return fail(
+            "c02.ratio_range",
+            format!("ratio {} outside 0..=1 for lengths {}/{} with {} deleted, {} inserted", r, old_len, new_len, del, ins),
+        );
+    }
+    if (r == 1.0) != same {
+        return fail(
+            "c02.ratio_one_iff_equal",
+            format!(
+                "ratio {} for sequences of {} and {} items with {} deleted and {} inserted (equal = {})",
+                r, old_len, new_len, del, ins, same
+            ),
+        );
+    }
+    Ok(())
+}
+
 fn judge_c09(o: &CapOut) -> Result<(), Fail> {
     normal_form(&o.ops, &o.new_ids)
 }
@@ -311,6 +372,15 @@ impl CapProp {
                 detail: format!("k={}: {}", k, f.detail),
             }
         };
+        if self.0 == Which::C02 {
+            if let Some(p) = case.ratio_probe {
+                judge_ratio_probe(p).map_err(|f| Fail {
+                    clause: f.clause,
+                    detail: format!("ratio probe: {}", f.detail),
+                })?;
+                out.count("ratio_probes_on_long_virtual_sequences", 1);
+            }
+        }
         // fault-free configuration, judged separately
         if case.only_k.is_none() {
             let none = cap_run(case, false, Sched::Never).map_err(|m| Fail {
@@ -319,6 +389,7 @@ impl CapProp {
             })?;
             out.execs += 1;
             out.faults[F_NONE] += 1;
+            crate::engine::trace(|| format!("{:?} {:?} no deadline: ops={:?}", case.entry, case.seq.alg, none.ops));
             self.judge(&none).map_err(|f| Fail {
                 clause: f.clause,
                 detail: format!("none: {}", f.detail),
@@ -359,6 +430,7 @@ impl CapProp {
                 detail: format!("k={}: {}", k, m),
             })?;
             out.execs += 1;
+            crate::engine::trace(|| format!("{:?} {:?} k={} of K={}: first_expired={:?} ops={:?}", case.entry, case.seq.alg, k, kmax, run.first_expired, run.ops));
             self.judge(&run).map_err(tagk(k))?;
             if k < kmax {
                 out.faults[if k == 0 { F_EXP0 } else { F_EXPMID }] += 1;
@@ -479,6 +551,14 @@ impl Prop for CapProp {
             entry,
             flavour: rng.below(3) as u8,
             script_seed: rng.next(),
+            ratio_probe: {
+                // lengths up to 2^40, few or no edits
+                let bits = 1 + rng.below(40);
+                let eq = rng.below(1u64 << bits);
+                let del = if rng.chance(1, 3) { 0 } else { rng.below(4) };
+                let ins = if rng.chance(1, 3) { 0 } else { rng.below(4) };
+                Some((eq + del, eq + ins, del, ins))
+            },
             only_k: None,
             cap: match (tier, size) {
                 (Tier::Quick, Size::Small) | (Tier::Quick, Size::Medium) => 256,
@@ -508,6 +588,17 @@ impl Prop for CapProp {
     }
     fn shrink(&self, case: &Case) -> Vec<Case> {
         let mut out = Vec::new();
+        if let Some((o, n, d, i)) = case.ratio_probe {
+            // halve the common part of the probe
+            let eq = o - d;
+            for neq in [eq / 2, eq - eq / 16, eq.saturating_sub(1)] {
+                if neq < eq {
+                    let mut c = case.clone();
+                    c.ratio_probe = Some((neq + d, neq + i, d, i));
+                    out.push(c);
+                }
+            }
+        }
         if case.entry != CapEntry::Ranges && case.entry != CapEntry::Script {
             // text and slice entries only see the core; try the plain entry
             let mut c = case.clone();
